@@ -14,6 +14,7 @@ open Opw Opw.Proto Opw.Drv
 def dispatch (op : String) : Option (RM Res) :=
   match op with
   | "links" => some opLinks
+  | "preset" => some opPreset
   | "linksp" => some opLinksP
   | "inv" => some (opInverse .inv)
   | "invc" => some (opInverse .invc)
